@@ -387,6 +387,13 @@ SPECS["C10"]["items"] += [
 ]
 
 
+SPECS["C10"]["imports"] += "\nFrom BB Require Import ParseFuelP."
+SPECS["C10"]["items"] += [
+    dict(name="pscript_fuel", comment="the parser fuel of the front end suffices for every sentence (the sharper bound length ts <= f + 2 is pscript_fuel_min; fuel_tight_example shows the slope cannot be lowered)"),
+    dict(name="front_total_decides", comment="THE SYNTAX STAGE DECIDES THE GRAMMAR: for every character string the front end (lexer + parser with their own fuels) answers, and it answers Refuse ESyntax exactly when the token sequence is not a sentence of the grammar as written, Ok exactly when it is"),
+]
+
+
 def main():
     which = sys.argv[1:] or sorted(SPECS)
     for p in which:
